@@ -7,6 +7,8 @@ import numpy as np
 
 import finam as fm
 
+from ..fmutil import limited
+
 
 class Producer(fm.Component):
     def __init__(self, value, units):
@@ -86,7 +88,7 @@ def run_order(case, order):
         comp = fm.Composition([comps[i] for i in order], log_level="ERROR")
         for r in readers:
             prod.outputs["Out"] >> r.inputs["In"]
-        comp.connect()
+        limited(30, comp.connect)
     except Exception as e:  # noqa
         res["error"] = f"{type(e).__name__}: {str(e)[:160]}"
     res["connected_early"] = early
